@@ -9,6 +9,7 @@ import (
 	"bufio"
 	"fmt"
 	"io"
+	"os"
 	"os/exec"
 	"strconv"
 	"strings"
@@ -33,6 +34,10 @@ type Solver struct {
 	in      io.WriteCloser
 	out     *bufio.Reader
 	buf     strings.Builder
+	log     strings.Builder
+	decls   strings.Builder // declarations, definitions and assertions of the current path scope
+	OneShot int             // queries re-decided by a fresh non-incremental solver run
+	incrTO  int
 	defined map[*Term]string // terms defined in the current path scope
 	nextID  int
 	inScope bool
@@ -75,7 +80,11 @@ func NewSolver(kind string, timeoutMs int) (*Solver, error) {
 		s.send(fmt.Sprintf("(set-option :tlimit-per %d)\n", timeoutMs))
 	} else {
 		s.send("(set-option :produce-models true)\n")
-		s.send(fmt.Sprintf("(set-option :timeout %d)\n", timeoutMs))
+		incr := timeoutMs
+		if incr > 2500 {
+			incr = 2500
+		}
+		s.send(fmt.Sprintf("(set-option :timeout %d)\n", incr))
 	}
 	return s, nil
 }
@@ -90,8 +99,19 @@ func (s *Solver) Close() {
 	s.cmd = nil
 }
 
+var smtLogDir = os.Getenv("GOSYM_SMTLOG")
+
 func (s *Solver) send(cmd string) {
 	s.buf.WriteString(cmd)
+	if smtLogDir != "" {
+		s.log.WriteString(cmd)
+	}
+}
+
+func (s *Solver) dumpLog(tag string) {
+	if smtLogDir != "" {
+		os.WriteFile(fmt.Sprintf("%s/%s-%d-%d.smt2", smtLogDir, tag, os.Getpid(), s.Queries), []byte(s.log.String()), 0o644)
+	}
 }
 
 func (s *Solver) flush() {
@@ -106,6 +126,8 @@ func (s *Solver) BeginPath() {
 	if s.inScope {
 		s.EndPath()
 	}
+	s.log.Reset()
+	s.decls.Reset()
 	s.send("(push 1)\n")
 	s.inScope = true
 }
@@ -135,7 +157,7 @@ func (s *Solver) ref(t *Term) string {
 			return n
 		}
 		n := quoteSym(t.name)
-		s.send(fmt.Sprintf("(declare-const %s %s)\n", n, t.sort.smt()))
+		s.sendDecl(fmt.Sprintf("(declare-const %s %s)\n", n, t.sort.smt()))
 		s.defined[t] = n
 		return n
 	}
@@ -177,7 +199,7 @@ func (s *Solver) ref(t *Term) string {
 		})
 		n := "t" + strconv.Itoa(s.nextID)
 		s.nextID++
-		s.send(fmt.Sprintf("(define-fun %s () %s %s)\n", n, cur.sort.smt(), body))
+		s.sendDecl(fmt.Sprintf("(define-fun %s () %s %s)\n", n, cur.sort.smt(), body))
 		s.defined[cur] = n
 	}
 	return s.defined[t]
@@ -188,7 +210,52 @@ func (s *Solver) Assert(t *Term) {
 	if t.isConst() && t.k != 0 {
 		return
 	}
-	s.send("(assert " + s.ref(t) + ")\n")
+	s.sendDecl("(assert " + s.ref(t) + ")\n")
+}
+
+func (s *Solver) sendDecl(cmd string) {
+	s.send(cmd)
+	s.decls.WriteString(cmd)
+}
+
+// oneShot re-decides a query with a fresh, non-incremental solver process
+// (z3's incremental mode skips the preprocessing that floating-point and
+// wide bit-vector obligations need). vars != nil also retrieves a model.
+func (s *Solver) oneShot(extraName string, names []string, vars []*Term) (SatResult, []uint64) {
+	s.OneShot++
+	var sb strings.Builder
+	sb.WriteString(s.decls.String())
+	if extraName != "" {
+		sb.WriteString("(assert " + extraName + ")\n")
+	}
+	sb.WriteString("(check-sat)\n")
+	if len(names) > 0 {
+		sb.WriteString("(get-value (" + strings.Join(names, " ") + "))\n")
+	}
+	for _, bin := range []string{"z3", "z3-new"} {
+		cmd := exec.Command(bin, "-in", fmt.Sprintf("-T:%d", s.timeout/1000))
+		cmd.Stdin = strings.NewReader(sb.String())
+		out, _ := cmd.Output()
+		txt := string(out)
+		line := txt
+		if i := strings.IndexByte(txt, '\n'); i >= 0 {
+			line = txt[:i]
+		}
+		switch strings.TrimSpace(line) {
+		case "unsat":
+			return Unsat, nil
+		case "sat":
+			if len(names) == 0 {
+				return Sat, nil
+			}
+			rest := txt[len(line):]
+			if strings.Contains(rest, "(error") {
+				continue
+			}
+			return Sat, parseModel(rest, vars, names)
+		}
+	}
+	return Unknown, nil
 }
 
 func (s *Solver) readLine() string {
@@ -228,8 +295,10 @@ func (s *Solver) Check(extra *Term) SatResult {
 		case line == "unknown":
 			res = Unknown
 			s.NUnknown++
+			s.dumpLog("unknown")
 		case strings.HasPrefix(line, "(error"):
 			s.Errors = append(s.Errors, line)
+			s.dumpLog("error")
 			if strings.Contains(line, "solver died") {
 				s.NUnknown++
 				s.Time += time.Since(start)
@@ -243,6 +312,21 @@ func (s *Solver) Check(extra *Term) SatResult {
 			continue
 		}
 		break
+	}
+	if res == Unknown && len(s.Errors) == 0 {
+		name := ""
+		if extra != nil {
+			name = s.ref(extra)
+		}
+		if r, _ := s.oneShot(name, nil, nil); r != Unknown {
+			s.NUnknown--
+			if r == Sat {
+				s.NSat++
+			} else {
+				s.NUnsat++
+			}
+			res = r
+		}
 	}
 	s.Time += time.Since(start)
 	if len(s.Errors) > 0 {
@@ -305,6 +389,21 @@ func (s *Solver) CheckWithModel(extra *Term, vars []*Term) (SatResult, []uint64)
 	}
 	if extra != nil {
 		s.send("(pop 1)\n")
+	}
+	if res == Unknown && len(s.Errors) == 0 {
+		name := ""
+		if extra != nil {
+			name = s.ref(extra)
+		}
+		if r, m := s.oneShot(name, names, vars); r != Unknown {
+			s.NUnknown--
+			if r == Sat {
+				s.NSat++
+			} else {
+				s.NUnsat++
+			}
+			res, model = r, m
+		}
 	}
 	s.Time += time.Since(start)
 	if len(s.Errors) > 0 {
